@@ -56,22 +56,8 @@ func (r *Registry) Monitor(endpoints []string, key string, exactMatch bool, l Up
 
 	c, exists := r.getOrCreateCluster(endpoints)
 	// if exists, the existing values should be updated to the listener.
-	if exists {
-		c.lock.Lock()
-		watcher, ok := c.watchers[wkey]
-		if ok {
-			watcher.listeners = append(watcher.listeners, l)
-		}
-		c.lock.Unlock()
-
-		if ok {
-			kvs := c.getCurrent(wkey)
-			for _, kv := range kvs {
-				l.OnAdd(kv)
-			}
-
-			return nil
-		}
+	if exists && c.join(wkey, l) {
+		return nil
 	}
 
 	return c.monitor(wkey, l)
@@ -159,6 +145,11 @@ type (
 		watchGroup *threading.RoutineGroup
 		done       chan lang.PlaceholderType
 		lock       sync.RWMutex
+		// notifyLock serializes the deliveries to the listeners: a listener that joins an existing
+		// watcher is told the current values either before or after a change is delivered, never in between
+		notifyLock sync.Mutex
+		// reloadLock serializes the reloads
+		reloadLock sync.Mutex
 	}
 )
 
@@ -219,6 +210,9 @@ func (c *cluster) getCurrent(key watchKey) []KV {
 }
 
 func (c *cluster) handleChanges(key watchKey, kvs []KV) {
+	c.notifyLock.Lock()
+	defer c.notifyLock.Unlock()
+
 	c.lock.Lock()
 	watcher, ok := c.watchers[key]
 	if !ok {
@@ -250,6 +244,9 @@ func (c *cluster) handleChanges(key watchKey, kvs []KV) {
 }
 
 func (c *cluster) handleWatchEvents(ctx context.Context, key watchKey, events []*clientv3.Event) {
+	c.notifyLock.Lock()
+	defer c.notifyLock.Unlock()
+
 	c.lock.RLock()
 	watcher, ok := c.watchers[key]
 	if !ok {
@@ -286,6 +283,29 @@ func (c *cluster) handleWatchEvents(ctx context.Context, key watchKey, events []
 			logc.Errorf(ctx, "Unknown event type: %v", ev.Type)
 		}
 	}
+}
+
+// join adds the listener to the existing watcher of the key and tells it the current values,
+// returns false if there is no such watcher.
+func (c *cluster) join(key watchKey, l UpdateListener) bool {
+	c.notifyLock.Lock()
+	defer c.notifyLock.Unlock()
+
+	c.lock.Lock()
+	watcher, ok := c.watchers[key]
+	if ok {
+		watcher.listeners = append(watcher.listeners, l)
+	}
+	c.lock.Unlock()
+	if !ok {
+		return false
+	}
+
+	for _, kv := range c.getCurrent(key) {
+		l.OnAdd(kv)
+	}
+
+	return true
 }
 
 func (c *cluster) load(cli EtcdClient, key watchKey) int64 {
@@ -348,10 +368,17 @@ func (c *cluster) newClient() (EtcdClient, error) {
 }
 
 func (c *cluster) reload(cli EtcdClient) {
+	c.reloadLock.Lock()
+	defer c.reloadLock.Unlock()
+
 	c.lock.Lock()
 	// cancel the previous watches
 	close(c.done)
+	c.lock.Unlock()
+	// a watch goroutine that is handling a response needs c.lock to finish it, wait without holding the lock
 	c.watchGroup.Wait()
+
+	c.lock.Lock()
 	var keys []watchKey
 	for wk, wval := range c.watchers {
 		keys = append(keys, wk)
